@@ -41,6 +41,14 @@ func main() {
 			c, out := runHubCase(*seed*1000003+uint64(i), *nops, *hostile, *gov, stats)
 			fmt.Fprintf(w, "hub\t%s\t%s\n", Str(c), Str(out))
 		}
+	case "oracle":
+		for i := 0; i < *n; i++ {
+			if *only >= 0 && i != *only {
+				continue
+			}
+			c, out := runOracleCase(*seed*1000003+uint64(i), *nops, stats)
+			fmt.Fprintf(w, "oracle\t%s\t%s\n", Str(c), Str(out))
+		}
 	case "reg":
 		for i := 0; i < *n; i++ {
 			if *only >= 0 && i != *only {
